@@ -154,8 +154,51 @@ def _longest(c, start, forward):
 
 
 def check(case, ctx):
+    """Queries on the circuit as built, then -- on the same Circuit object -- after edits made through
+    the public API (a blackbox pin removed or renamed; a rewiring that keeps node and edge counts but
+    may create or destroy a cycle): answers must describe the graph as it is now."""
     spec = case["spec"]
     c = specs.build(spec)
+    res = _queries(c, case, ctx)
+    labels = list(res["labels"])
+    pk = case.get("k", 1) * 7 + len(spec["nodes"])
+    edited = False
+    pins = sorted(n for n in c.graph.nodes if c.graph.nodes[n]["type"] in ("bb_input", "bb_output"))
+    if pins and pk % 3 == 0:
+        pin = pins[pk % len(pins)]
+        if pk % 2:
+            c.remove(pin)
+        else:
+            c.relabel({pin: "zz_renamed_pin"})
+        edited = True
+        labels.append("pin_edited")
+    else:
+        es = sorted(c.graph.edges)
+        ns = sorted(c.graph.nodes)
+        if es and len(ns) >= 2:
+            u, v = es[pk % len(es)]
+            x, y = ns[pk % len(ns)], ns[(pk * 5 + 1) % len(ns)]
+            if x != y and not c.graph.has_edge(x, y) and (x, y) != (u, v):
+                c.disconnect(u, v)
+                r = lib(c.connect, x, y)
+                if r.ok:
+                    edited = True
+                    labels.append("rewired_same_counts")
+                else:
+                    c.connect(u, v)
+    if edited:
+        case2 = dict(case)
+        if case.get("args") != "all":
+            keep = set(c.graph.nodes)
+            case2["args"] = [[a for a in lst if a in keep] for lst in case["args"]]
+            case2["args"] = [lst for lst in case2["args"] if lst] or [[sorted(keep)[0]]]
+        res2 = _queries(c, case2, ctx)
+        labels += [lb + "_after_edit" for lb in res2["labels"] if lb in ("cyclic", "acyclic")]
+    return {"nontrivial": res["nontrivial"], "labels": labels}
+
+
+def _queries(c, case, ctx):
+    spec = case["spec"]
     g = c.graph
     nodes = sorted(g.nodes)
     cyc = refsim.has_cycle(c)
